@@ -229,9 +229,44 @@ def run_shard(shard):
             # every path across the documents
             ptxt = dot if (di + pi) % 2 == 0 else slash
             check_case(st, doc, text, shp, segs, ptxt)
+        if di % CLIMB_STRIDE == 0:
+            climb_create_family(st, doc, text, shp)
         if di == lo:
             st.sample({"doc": text, "path": PATHS[(di * 7) % len(PATHS)][1]})
     return st
+
+
+CLIMB_STRIDE = 1
+CLIMB_FIRST = ["*", "[.!=zz]", "[a:b]", "**", "a.*", "a[.!=zz]", "[0].*"]
+CLIMB_UP = ["[parent()]", "[parent(0)]", "[parent(2)]"]
+CLIMB_TAIL = ["new", "[&new]", "[5]", "a", "[0]"]
+
+
+def climb_create_family(st, doc, text, shp):
+    """An optional-match query (the default mode of get_nodes) which climbs
+    back with parent() into a container it is still enumerating and names a
+    missing child there: results or a YAML Path error - no RuntimeError from
+    the container changing under the enumeration, and an end."""
+    for first in CLIMB_FIRST:
+        for up in CLIMB_UP:
+            for tail in CLIMB_TAIL:
+                ptxt = first + up + (tail if tail.startswith("[")
+                                     else "." + tail)
+                dup = copy.deepcopy(doc)
+                st.evaluations += 1
+                st.transitions += 3
+                st.validated += 1
+                out = qrun.query(dup, ptxt, mustexist=False, default="z",
+                                 limit=200)
+                st.outcomes["optional:" + (out.kind if out.kind != "crash"
+                                           else "crash")] += 1
+                st.states += 1
+                if out.kind == "crash":
+                    st.fail("optional|%s" % out.detail,
+                            {"doc": text, "path": ptxt, "mode": "optional"},
+                            "results or a YAML Path error", out.detail)
+                elif out.kind == "nodes":
+                    st.sig(shp, "climb", first, up, tail)
 
 
 def scalars_only(doc, nav, operands):
@@ -285,7 +320,8 @@ def replay(case):
     st = core.Stats(None)
     doc = corpus.load(case["doc"])
     if case.get("mode") == "optional":
-        out = qrun.query(doc, case["path"], mustexist=False, default="z")
+        out = qrun.query(doc, case["path"], mustexist=False, default="z",
+                         limit=200)
     else:
         out = qrun.query(doc, case["path"], mustexist=True)
     if out.kind == "crash":
